@@ -69,12 +69,14 @@ class Callback:
         return tuple(getattr(self, i, None) for i in fields)
 
     def __enter__(self):
-        self._cm = add_callbacks(self)
-        self._cm.__enter__()
+        cm = add_callbacks(self)
+        cm.__enter__()
+        # a stack: the same object may be entered again inside its own context
+        self.__dict__.setdefault("_cms", []).append(cm)
         return self
 
     def __exit__(self, *args):
-        self._cm.__exit__(*args)
+        self._cms.pop().__exit__(*args)
 
     def register(self) -> None:
         Callback.active.add(self._callback)
@@ -135,11 +137,14 @@ class add_callbacks:
 
     def __init__(self, *callbacks):
         self.callbacks = [normalize_callback(c) for c in callbacks]
+        # Leaving this context must only deactivate what it activated itself,
+        # not callbacks an enclosing context or ``register`` made active
+        self._added = [c for c in self.callbacks if c not in Callback.active]
         Callback.active.update(self.callbacks)
 
     def __enter__(self):
         return
 
     def __exit__(self, type, value, traceback):
-        for c in self.callbacks:
+        for c in self._added:
             Callback.active.discard(c)
